@@ -96,6 +96,8 @@ class Probe:
         def replace_nodes(source, replacements):
             if probe.in_subst:
                 probe.cur_repl = dict(replacements)
+            if probe.in_fsubst:
+                probe.cur_frepl = dict(replacements)
             return probe.real_replace_nodes(source, replacements)
 
         def subst(original_source, new_source):
@@ -108,6 +110,21 @@ class Probe:
                 probe.restores.append(restore_facts(probe.mods, original_source, new_source, probe.cur_repl, out))
             return out
 
+        self.real_fsubst = self.proc._substitute_original_fstrings
+        self.frestores = []
+        self.in_fsubst = False
+
+        def fsubst(original_source, new_source):
+            probe.in_fsubst, probe.cur_frepl = True, None
+            try:
+                out = probe.real_fsubst(original_source, new_source)
+            finally:
+                probe.in_fsubst = False
+            if probe.record_restores and original_source != new_source:
+                probe.frestores.append(frestore_facts(probe.mods, original_source, new_source, probe.cur_frepl, out))
+            return out
+
+        self.fsubst = fsubst
         self.replace_nodes, self.subst = replace_nodes, subst
         self.record_restores = False
 
@@ -159,6 +176,7 @@ class Probe:
 
     def __enter__(self):
         self.proc._substitute_original_strings = self.subst
+        self.proc._substitute_original_fstrings = self.fsubst
         self.proc._replace_nodes = self.replace_nodes
         self.fixes.formatting = self.formatting_proxy
         self.fixes.textwrap = self.textwrap_proxy
@@ -172,6 +190,7 @@ class Probe:
         self.fixes.re = self.real_re
         self.fixes.fix_too_many_blank_lines = self.real_ftmbl
         self.proc._substitute_original_strings = self.real_subst
+        self.proc._substitute_original_fstrings = self.real_fsubst
         self.proc._replace_nodes = self.real_replace_nodes
         self.fixes.formatting = self.real_formatting
         self.fixes.textwrap = self.real_textwrap
@@ -797,6 +816,19 @@ def check(run: common.Run):
     example = {}
     notes = []
 
+    def crashed(site, stage, inp, e, **extra):
+        """an exception out of the real code is a failing input by itself (the stage did not return a program)"""
+        if sum(1 for f in failing if f.get("crash")) < 20:
+            failing.append({"site": site, "stage": stage, "input": inp, "crash": True,
+                            "problem": f"exception {type(e).__name__}: {e}", **extra})
+
+    def safe_prepass(pr, s):
+        try:
+            return pr.prepass(s)
+        except Exception as e:  # noqa
+            crashed("main.format_code (pre-pass)", "prepass", s, e)
+            return None
+
     files, meta = [], {}
     disagreements_early = []
 
@@ -815,7 +847,12 @@ def check(run: common.Run):
     lap('proof step')
     with Probe(mods) as pr:
         # ---- 1. text stages, exhaustive small scope (seed independent)
-        pats = pr.patterns()
+        try:
+            pats = pr.patterns()
+        except Exception as e:  # noqa
+            crashed("fixes.fix_too_many_blank_lines", "blank_lines", "a\n", e)
+            pr.in_ftmbl = False
+            pats = []
         if len(pats) != 3:
             failing_shape = f"fix_too_many_blank_lines makes {len(pats)} re.sub calls"
             run.violation({"kind": "correspondence", "kernel": "K12", "detail": failing_shape,
@@ -836,7 +873,7 @@ def check(run: common.Run):
         n_short = len(strs)
         sitems, sinfo, ritems, rinfo = [], [], [], []
         for s in strs:
-            r = pr.prepass(s)
+            r = safe_prepass(pr, s)
             if r is None:
                 continue
             if not (r["rmspace"][0] == r["expandtabs"][1] and r["sub1"][0] == r["rmspace"][1]
@@ -879,7 +916,7 @@ def check(run: common.Run):
             if not valid(s):
                 hist["module:invalid"] += 1
                 continue
-            r = pr.prepass(s)
+            r = safe_prepass(pr, s)
             if r is None:
                 continue
             consistent = (r["rmspace"][0] == r["expandtabs"][1] and r["sub1"][0] == r["rmspace"][1]
@@ -938,7 +975,7 @@ def check(run: common.Run):
             if not valid(s):
                 continue
             lls = LINE_LENGTHS if (not quick or idx % 4 == 0) else [LINE_LENGTHS[(idx * 7) % len(LINE_LENGTHS)], 100]
-            r = pr.prepass(s)
+            r = safe_prepass(pr, s)
             pre = r["prepass"][1] if r else s
             mask = literal_mask(s)
             for ll in dict.fromkeys(lls):
@@ -977,6 +1014,33 @@ def check(run: common.Run):
         pr.record_restores = False
         pr.record_frames = False
         post_calls = len(pitems)
+
+        # ---- 3a. indented snippets: format_code dedents them (main.py: minimum_indent = indentation_level,
+        # textwrap.dedent) and re-indents the result at the end -- the same frame as FrameModel (T11.9): the
+        # result, dedented, must have the syntax tree of the dedented input and sit at the same indentation
+        import textwrap as _tw
+        snrnd = random.Random(SWEEP_SEED + 1)
+        n_snip = 0
+        for i in range(12 if quick else 120):
+            base = gen_module(snrnd, dirty=False, odd_indent=False, cont=False)
+            for kk in (1, 2, 4):
+                sn = _tw.indent(base, " " * kk)
+                if valid(sn) or not valid(base):
+                    continue
+                n_snip += 1
+                try:
+                    out, _ = pr.full(sn)
+                except Exception as e:  # noqa
+                    crashed("main.format_code", "format_code", sn, e)
+                    continue
+                ok = (ast_key(_tw.dedent(out)) == ast_key(base)
+                      and all(l.startswith(" " * kk) for l in out.split("\n") if l.strip())
+                      and mods["formatting"].indentation_level(out) == kk)
+                hist["snippet:" + ("ok" if ok else "changed")] += 1
+                if not ok:
+                    failing.append({"site": "main.format_code", "stage": "format_code", "input": sn, "output": out,
+                                    "problem": f"indented snippet (indent {kk}): the result is not the input's "
+                                               "program at the input's indentation"})
         add_files("post", "nat * string * string", "long_case_ok", pitems, pinfo, 60)
 
         # ---- 3b. the quote-restoration step: every real call seen during the sweep vs RestoreModel, and the
@@ -998,6 +1062,11 @@ def check(run: common.Run):
         fseen, fitems, finfo = set(), [], []
         for fr in pr.frames:
             cur, n = fr["cur"], fr["n"]
+            # format_with_black has a dedent / re-indent frame of its own; it is dead code as long as
+            # fix_line_lengths hands it code whose indentation level is 0 (checked here on every call)
+            if mods["formatting"].indentation_level(fr["black"][0]) != 0:
+                hist["frame:black-input-indented"] += 1
+                disagreements_early.append({"file": "frame", "case": ("format_with_black got indented code", cur, n)})
             if any(ch.isspace() and ch not in " \n" for ch in cur):
                 hist["frame:outside-domain"] += 1
                 continue
@@ -1021,8 +1090,25 @@ def check(run: common.Run):
             finfo.append(("frame", cur, ind if n > 0 else cur, n))
         add_files("frame", "list string * nat * list string * list string * list string", "frame_case_ok",
                   fitems, finfo, 150)
-        add_files("restore", "bool * list (nat * nat * bool) * list (nat * nat * bool) * list nat",
-                  "restore_case_ok", ritems2, rinfo2, 150)
+        add_files("restore", "bool * list (nat * nat * bool) * list (nat * nat * bool) * list (list nat)",
+                  "restore_pick_case_ok", ritems2, rinfo2, 150)
+        fseen2, fritems, frinfo = set(), [], []
+        for f in pr.frestores:
+            if f is None or (f["original"], f["new"]) in fseen2:
+                continue
+            fseen2.add((f["original"], f["new"]))
+            if not f["news"]:
+                continue
+            hist["frestore:" + ("replaced" if f["replaced"] else "left-alone")] += 1
+            if ast_key(f["out"], docs=False) != ast_key(f["new"], docs=False):
+                failing.append({"site": "processing._substitute_original_fstrings", "stage": "frestore",
+                                "input": f["new"], "original": f["original"], "output": f["out"],
+                                "problem": "restoring the original f-string spelling changed the syntax tree"})
+            if f["replaced"] or len(fritems) < (300 if quick else 3000):
+                fritems.append(frestore_case(f))
+                frinfo.append(("frestore", f["new"], f["out"], f["original"]))
+        add_files("frestore", "list (nat * nat * bool) * list (nat * nat * bool * bool) * list (list nat)",
+                  "frestore_case_ok", fritems, frinfo, 150)
 
     lap('e2e sweep')
     # ---- 4. minimize_whitespace_line_differences: exhaustive short scripts + seeded + real difflib
@@ -1039,8 +1125,13 @@ def check(run: common.Run):
         new = [rnd.choice(LINES) for _ in range(rnd.randint(0, 6))]
         scripts.append(differ_script(old, new))
     for sc in scripts:
-        with common.quiet():
-            out, new = run_minimize(mods, sc)
+        try:
+            with common.quiet():
+                out, new = run_minimize(mods, sc)
+        except Exception as e:  # noqa
+            crashed("processing.minimize_whitespace_line_differences", "minimize_ws", "".join(l for _, l in sc), e,
+                    script=sc)
+            continue
         out_lines = out.splitlines(keepends=True)
         mitems.append(minimize_case(sc, out_lines))
         minfo.append(("minimize_ws", sc, out))
@@ -1056,9 +1147,13 @@ def check(run: common.Run):
     iitems, iinfo = [], []
     for src in import_sources(run.tier, rnd):
         mods["core"].parse.cache_clear()
-        with common.quiet():
-            pairs = import_pairs(mods, src)
-            out = mods["fixes"].fix_import_spacing(src)
+        try:
+            with common.quiet():
+                pairs = import_pairs(mods, src)
+                out = mods["fixes"].fix_import_spacing(src)
+        except Exception as e:  # noqa
+            crashed("fixes.fix_import_spacing", "import_spacing", src, e)
+            continue
         iitems.append(import_case(src, pairs, out))
         iinfo.append(("import_spacing", src, out))
         hist["import:" + ("changed" if out != src else "same")] += 1
@@ -1103,7 +1198,9 @@ def check(run: common.Run):
         for f in kf:
             if f.kind == "finding" and f.id in WITNESSES:
                 st, w = WITNESSES[f.id]
-                r = pr.prepass(w)
+                r = safe_prepass(pr, w)
+                if r is None:
+                    continue
                 a, b = r[st]
                 prob = stage_oracle(st, a, b)
                 ma = literal_mask(a)
@@ -1115,7 +1212,11 @@ def check(run: common.Run):
                     common.log(f"note: known finding {f.id} no longer reproduces")
             elif f.kind == "fixed" and f.id in FIXED_WITNESSES:
                 for w in FIXED_WITNESSES[f.id]:
-                    out, _ = pr.full(w)
+                    try:
+                        out, _ = pr.full(w)
+                    except Exception as e:  # noqa
+                        crashed("main.format_code", "format_code", w, e)
+                        continue
                     if ast_key(out) != ast_key(w):
                         failing.append({"site": "main.format_code", "stage": "format_code", "input": w,
                                         "output": out, "problem": f"repaired defect {f.id} is back"})
@@ -1139,7 +1240,7 @@ def check(run: common.Run):
                        "explanation": "a property theorem no longer checks"}, bool(failing))
 
     run.coverage.update(
-        evaluations=len(info) + len(rinfo2) + len(finfo) + 7 * len(sinfo) + 3 * len(rinfo) + 7 * len(cinfo) + len(pinfo) + len(minfo) + len(iinfo) + len(dinfo) + n_e2e,
+        evaluations=len(info) + len(rinfo2) + len(frinfo) + len(finfo) + 7 * len(sinfo) + 3 * len(rinfo) + 7 * len(cinfo) + len(pinfo) + len(minfo) + len(iinfo) + len(dinfo) + n_e2e,
         distinct_nontrivial=len({(st, a) for (st, a, b) in info + sinfo + cinfo + pinfo if a != b})
         + len({x[1] for x in rinfo2 if x[1] != x[2]})
         + len({json.dumps(x[1]) for x in minfo if any(t != 0 for t, _ in x[1])})
@@ -1168,13 +1269,12 @@ def check(run: common.Run):
         explained_by_known_findings=dict(explained),
         sweep={"format_code_runs": n_e2e, "corpus": len(corpus), "line_lengths": LINE_LENGTHS,
                "oracle": "ast.dump equal (docstring whitespace and the u prefix ignored)",
-               "post_pass_stage_calls_checked": post_calls},
+               "post_pass_stage_calls_checked": post_calls, "indented_snippets": n_snip},
         unmodelled=["black.format_str (line wrapping)", "compactify.format_code",
                     "fixes.fix_line_lengths: statement ranges, elif handling, what black does between dedent and re-indent "
                     "(the dedent/re-indent frame IS modelled: FrameModel.v)",
-                    "processing._substitute_original_fstrings / _do_rewrite; the b/r/f prefix adjustment and the "
-                    "Counter.most_common choice inside _substitute_original_strings (model = set of admissible "
-                    "spellings, compared modulo prefix letters)",
+                    "processing._do_rewrite / _replace_nodes; the b/r/f prefix adjustment inside "
+                    "_substitute_original_strings (spellings compared modulo prefix letters when it fires)",
                     "difflib.Differ (abstracted: the theorems hold for every script)",
                     "core.get_charnos / walk_sequence / _is_stdlib feeding fix_import_spacing (inputs of the model)",
                     "textwrap.dedent / indent"],
@@ -1284,11 +1384,12 @@ def restore_facts(mods, original_source, new_source, repl, out):
     for v, s, node in nn:
         r = (repl or {}).get(node)
         if r is None:
-            obs.append(0)
+            obs.append([])
             continue
+        r = str(r)
         # the b/r/f prefix adjustment is not modelled: compare modulo prefix letters
-        match = [t for (v2, t) in on if v2 == v and t.lstrip(PREFIX_CHARS) == str(r).lstrip(PREFIX_CHARS)]
-        obs.append(1 + (tid(match[0]) if match else 10 ** 6))
+        match = [t for (v2, t) in on if v2 == v and t.lstrip(PREFIX_CHARS) == r.lstrip(PREFIX_CHARS)]
+        obs.append(sorted({tid(t) for t in match}) or [10 ** 6])
     return {"all_in": all_in, "origs": origs, "news": news, "obs": obs, "original": original_source,
             "new": new_source, "out": out, "replaced": sum(1 for o in obs if o)}
 
@@ -1296,7 +1397,54 @@ def restore_facts(mods, original_source, new_source, repl, out):
 def restore_case(f) -> str:
     def trip(x):
         return f"({x[0]}, {x[1]}, {gbool(x[2])})"
-    return (f"({gbool(f['all_in'])}, {glist(f['origs'], trip)}, {glist(f['news'], trip)}, {glist(f['obs'])})")
+    return (f"({gbool(f['all_in'])}, {glist(f['origs'], trip)}, {glist(f['news'], trip)}, {glist(f['obs'], glist)})")
+
+
+def _is_fstring_of(mods, text: str, key: str) -> bool:
+    """`text`, parsed on its own, is an expression statement holding an f-string whose unparse text is key"""
+    try:
+        tree = ast.parse(text)
+    except (SyntaxError, ValueError):
+        return False
+    return (len(tree.body) == 1 and isinstance(tree.body[0], ast.Expr) and isinstance(tree.body[0].value, ast.JoinedStr)
+            and mods["core"].unparse(tree.body[0].value) == key)
+
+
+def frestore_facts(mods, original_source, new_source, repl, out):
+    """Inputs of RestoreModel.frestore for one real call of _substitute_original_fstrings."""
+    core = mods["core"]
+    try:
+        new_ast, orig_ast = core.parse(new_source), core.parse(original_source)
+    except SyntaxError:
+        return None
+    keys, texts = {}, {}
+
+    def kid(k):
+        return keys.setdefault(k, len(keys))
+
+    def tid(s):
+        return texts.setdefault(s, len(texts))
+    origs = []
+    for n in core.walk(orig_ast, ast.JoinedStr):
+        code = core.get_code(n, original_source)
+        origs.append((kid(core.unparse(n)), tid(code), valid(code)))
+    news, obs = [], []
+    for n in core.walk(new_ast, ast.JoinedStr):
+        code, key = core.get_code(n, new_source), core.unparse(n)
+        news.append((kid(key), tid(code), valid(code), _is_fstring_of(mods, code, key)))
+        r = (repl or {}).get(n)
+        obs.append([] if r is None else [tid(str(r))])
+    return {"origs": origs, "news": news, "obs": obs, "original": original_source, "new": new_source, "out": out,
+            "replaced": sum(1 for o in obs if o)}
+
+
+def frestore_case(f) -> str:
+    def trip(x):
+        return f"({x[0]}, {x[1]}, {gbool(x[2])})"
+
+    def quad(x):
+        return f"({x[0]}, {x[1]}, {gbool(x[2])}, {gbool(x[3])})"
+    return f"({glist(f['origs'], trip)}, {glist(f['news'], quad)}, {glist(f['obs'], glist)})"
 
 
 # ------------------------------------------------------------------------------------------------
